@@ -5,3 +5,4 @@ import OidcModel.Proofs.C07
 import OidcModel.Proofs.C12
 import OidcModel.Proofs.C14
 import OidcModel.Proofs.C05
+import OidcModel.Proofs.C08
